@@ -26,6 +26,9 @@ for d in sorted(os.listdir(os.path.join(root, "seeded"))):
         jobs.append((d[:3], "seeded", "seeded/" + d, p))
 if only:
     jobs = [j for j in jobs if j[0].lower() == only]
+if "--match" in sys.argv:
+    pat = sys.argv[sys.argv.index("--match") + 1]
+    jobs = [j for j in jobs if re.search(pat, j[2])]
 outp = os.path.join(root, "seeded", "KILLMATRIX.json")
 res = json.load(open(outp)) if os.path.exists(outp) else {}
 for prop, kind, name, path in jobs:
